@@ -24,7 +24,10 @@ impl Write for Null {
 pub fn init(path: Option<&str>) {
     if std::env::var("VERIF_NO_TRACE").is_ok() {
         // no system call at all for the trace (fault injection counts write calls)
-        *SINK.lock().unwrap() = Some(Sink { w: Box::new(Null), seq: 0 });
+        *SINK.lock().unwrap() = Some(Sink {
+            w: Box::new(Null),
+            seq: 0,
+        });
         return;
     }
     let w: Box<dyn Write + Send> = match path {
@@ -81,14 +84,19 @@ pub fn install_panic_hook() {
         *LAST_PANIC_ANY.lock().unwrap_or_else(|e| e.into_inner()) = loc.clone();
         LAST_PANIC_LOC.with(|l| *l.borrow_mut() = loc.clone());
         // best effort: report the site even if the process aborts right after
-        emit(json!({"ev":"PanicSite","site":loc,"msg":msg.chars().take(200).collect::<String>(),"thread":th}));
+        emit(
+            json!({"ev":"PanicSite","site":loc,"msg":msg.chars().take(200).collect::<String>(),"thread":th}),
+        );
     }));
 }
 
 pub fn last_panic_site() -> String {
     let l = LAST_PANIC_LOC.with(|l| l.borrow().clone());
     if l.is_empty() {
-        LAST_PANIC_ANY.lock().unwrap_or_else(|e| e.into_inner()).clone()
+        LAST_PANIC_ANY
+            .lock()
+            .unwrap_or_else(|e| e.into_inner())
+            .clone()
     } else {
         l
     }
